@@ -287,15 +287,15 @@ def step (st : St) (line : String) : St × String :=
     | none => bad
   | ["gbf_parse", ls] =>
     match decList ls with
-    | some ls => (st, if ls.all asciiOnly then showFeats (parseFeatures ls) else "unmodelled")
+    | some ls => (st, showFeats (parseFeatures ls))
     | none => bad
   | ["gbf_print", ft] =>
     match decFeat ft with
-    | some f => (st, "ok " ++ encList (featLines f.key (printLocs f.locs) f.quals))
+    | some f => (st, match printFeaturesE [f] with | .ok ls => "ok " ++ encList ls | .error e => errS e)
     | none => bad
   | ["gbf_rt", fts] =>
     match (fts.splitOn "#").mapM decFeat with
-    | some fs => (st, showFeats (parseFeatures (printFeatures fs)))
+    | some fs => (st, match printFeaturesE fs with | .ok ls => showFeats (parseFeatures ls) | .error e => errS e)
     | none => bad
   | ["org_print", start, sq] =>
     match start.toInt?, decStr sq with
